@@ -47,7 +47,7 @@ func setRegistry(on bool) {
 	redact.VerifResetSafeTypes()
 	regTypes = map[reflect.Type]bool{}
 	if on {
-		for _, t := range []reflect.Type{reflect.TypeOf(RegInt(0)), reflect.TypeOf(RegStr("")), reflect.TypeOf(URegStringer{}), reflect.TypeOf(RegSt{})} {
+		for _, t := range []reflect.Type{reflect.TypeOf(RegInt(0)), reflect.TypeOf(RegStr("")), reflect.TypeOf(URegStringer{}), reflect.TypeOf(RegSt{}), reflect.TypeOf(uint16(0))} {
 			redact.RegisterSafeType(t)
 			regTypes[t] = true
 		}
